@@ -56,6 +56,7 @@ CONSTANTS Fds,          \* scripted descriptors
           IdleDurs,     \* us an Idle step lasts
           Fixes,        \* arguments of setFixedBatchSize
           MaxPend, MaxOps,
+          TrackHist,    \* FALSE: statistics / history / op counter frozen (deep exploration of everything else)
           Dev_FixedIgnored, Dev_UpdateZero,
           Dev_LimitIgnoresAdaptive, Dev_SpecialAlsoGeneral, Dev_NoThrottle, Dev_StatsOnEmpty, Dev_MinNeverSet,
           Dev_CallbackOnEmpty, Dev_EintrThrows, Dev_DecreaseHalf
@@ -140,14 +141,14 @@ BatchCore(mode, ret, w, c, honourFixed) ==
                 np == [f \in Fds |-> Max(0, pend[f] - Count(taken, f) - Count(gen, f))]
             IN /\ pend' = np
                /\ rq' = SelectSeq(SelectSeq(rq, LAMBDA f : f \notin Range(ret)) \o ret, LAMBDA f : np[f] > 0)
-               /\ st' = [StatsAfter(st, n, el) EXCEPT !.adj = @ + a.adj]
-               /\ hist' = Append(hist, <<n, el, a.adj>>)
+               /\ st' = IF TrackHist THEN [StatsAfter(st, n, el) EXCEPT !.adj = @ + a.adj] ELSE st
+               /\ hist' = IF TrackHist THEN Append(hist, <<n, el, a.adj>>) ELSE hist
                /\ cur' = a.cur /\ since' = a.since
                /\ last' = [base EXCEPT !.ret = ret, !.sp = ret, !.gen = gen, !.cb = n, !.el = el, !.sinceAdj = a.total, !.adj = a.adj]
                /\ UNCHANGED <<cfg, spc, fixed>>
        [] res = "empty" ->
             /\ since' = Min(since + 1000 * tmo, Throttle)                \* the wait lasted the whole timeout
-            /\ IF Dev_StatsOnEmpty THEN st' = StatsAfter(st, 0, 1000 * tmo) ELSE st' = st
+            /\ st' = IF Dev_StatsOnEmpty /\ TrackHist THEN StatsAfter(st, 0, 1000 * tmo) ELSE st
             /\ last' = [base EXCEPT !.cb = IF Dev_CallbackOnEmpty THEN 0 ELSE -1, !.el = 1000 * tmo]
             /\ UNCHANGED <<cfg, spc, cur, fixed, hist, pend, rq>>
        [] res = "eintr" ->
@@ -159,7 +160,7 @@ BatchCore(mode, ret, w, c, honourFixed) ==
 
 \* ---------------------------------------------------------------------------------------------- Impl actions
 Alive == cfg.max > 0 /\ nops < MaxOps
-Tick == nops' = nops + 1
+Tick == nops' = IF TrackHist THEN nops + 1 ELSE nops
 Construct(ci, si) == cfg.max = 0 /\ ConstructCore(Cfgs[ci], SpecialSets[si]) /\ UNCHANGED <<pend, rq, nops>>
 Submit(f) == Alive /\ pend[f] < MaxPend /\ SubmitCore(f) /\ Tick
 Batch(w, c) == /\ Alive
